@@ -1487,6 +1487,8 @@ struct Sites {
     let_seq: BTreeMap<(String, String), usize>,
     /// canonical names of the scopes whose import list has an alias-prefix pair
     pair_scopes: Vec<String>,
+    /// every import: (canonical scope, path, position in program order of the block start)
+    imports: Vec<(String, Path, usize)>,
 }
 
 fn probe_infos(p: &Program) -> Sites {
@@ -1494,11 +1496,15 @@ fn probe_infos(p: &Program) -> Sites {
     let mut decls: BTreeMap<(String, String), i64> = BTreeMap::new();
     let mut let_seq: BTreeMap<(String, String), usize> = BTreeMap::new();
     let mut pair_scopes: Vec<String> = vec![];
+    let mut imports: Vec<(String, Path, usize)> = vec![];
     let mut seq = 0usize;
     #[allow(clippy::too_many_arguments)]
-    fn walk(p: &Program, mi: usize, b: &Block, ctx: &str, scope: &str, depth: usize, next_block: &mut usize, seq: &mut usize, out: &mut BTreeMap<usize, ProbeInfo>, decls: &mut BTreeMap<(String, String), i64>, let_seq: &mut BTreeMap<(String, String), usize>, pair_scopes: &mut Vec<String>) {
+    fn walk(p: &Program, mi: usize, b: &Block, ctx: &str, scope: &str, depth: usize, next_block: &mut usize, seq: &mut usize, out: &mut BTreeMap<usize, ProbeInfo>, decls: &mut BTreeMap<(String, String), i64>, let_seq: &mut BTreeMap<(String, String), usize>, pair_scopes: &mut Vec<String>, imports: &mut Vec<(String, Path, usize)>) {
         if alias_prefix_pair(p, mi, &flatten_all(&b.imports)) {
             pair_scopes.push(scope.to_string());
+        }
+        for ip in flatten_all(&b.imports) {
+            imports.push((scope.to_string(), ip, *seq + 1));
         }
         for s in &b.stmts {
             *seq += 1;
@@ -1509,7 +1515,7 @@ fn probe_infos(p: &Program) -> Sites {
                 Stmt::Block(_, inner) => {
                     let id = *next_block;
                     *next_block += 1;
-                    walk(p, mi, inner, ctx, &format!("{scope}.$b{id}"), depth + 1, next_block, seq, out, decls, let_seq, pair_scopes);
+                    walk(p, mi, inner, ctx, &format!("{scope}.$b{id}"), depth + 1, next_block, seq, out, decls, let_seq, pair_scopes, imports);
                 }
                 Stmt::Let(x, t) => {
                     decls.entry((scope.to_string(), p.names[*x].clone())).or_insert(*t);
@@ -1530,6 +1536,9 @@ fn probe_infos(p: &Program) -> Sites {
         if alias_prefix_pair(p, mi, &module_imports) {
             pair_scopes.push(mn[mi].clone());
         }
+        for ip in &module_imports {
+            imports.push((mn[mi].clone(), ip.clone(), 0));
+        }
         for it in &m.items {
             match it {
                 ItemD::Fn { name, tag, body } => {
@@ -1537,7 +1546,7 @@ fn probe_infos(p: &Program) -> Sites {
                     if let Some(b) = body {
                         let fscope = format!("{}.{}", mn[mi], p.names[*name]);
                         let below = fscope.strip_prefix("pkg.").unwrap_or(&fscope).to_string();
-                        walk(p, mi, b, &below, &fscope, 0, &mut next_block, &mut seq, &mut out, &mut decls, &mut let_seq, &mut pair_scopes);
+                        walk(p, mi, b, &below, &fscope, 0, &mut next_block, &mut seq, &mut out, &mut decls, &mut let_seq, &mut pair_scopes, &mut imports);
                     }
                 }
                 ItemD::Const { name, tag } | ItemD::Ty { name, tag } => {
@@ -1558,7 +1567,7 @@ fn probe_infos(p: &Program) -> Sites {
             decls.entry((p.names[r.name].clone(), p.names[*n].clone())).or_insert(*t);
         }
     }
-    Sites { probes: out, decls, let_seq, pair_scopes }
+    Sites { probes: out, decls, let_seq, pair_scopes, imports }
 }
 
 // ------------------------------------------------------------------ the compiler's own scope graph
@@ -1674,6 +1683,24 @@ fn canon_model_line(s: &str, names: &[String]) -> Option<String> {
 /// direct member of the item before it.  Returns the declaration as
 /// (canonical scope name, identifier, kind) or the error class.
 fn oracle(sc: &[DScope], start: usize, path: &[String], kind: PKind, visible: &dyn Fn(&str, &str) -> bool) -> Result<(String, String), String> {
+    let (d, rest) = oracle_core(sc, start, path, visible)?;
+    let k = d.2.as_str();
+    let ok = || Ok((sc[d.0].canon.clone().unwrap_or_else(|| format!("?{}", d.0)), d.1.clone()));
+    match (kind, k) {
+        (PKind::Ty, "ty") => ok(),
+        (PKind::Ty, _) => Err("expectedType".into()),
+        (PKind::Fn, "mod") | (PKind::Fn, "ty") | (PKind::Const, "mod") | (PKind::Const, "ty") => Err("expectedValue".into()),
+        (PKind::Fn, "fn") => if rest == 0 { ok() } else { Err("noField".into()) },
+        (PKind::Fn, _) => if rest == 0 { Err("expectedFunction".into()) } else { Err("noField".into()) },
+        (PKind::Const, "fn") => if rest == 0 { Err("expectedValue".into()) } else { Err("noField".into()) },
+        (PKind::Const, _) => if rest == 0 { ok() } else { Err("noField".into()) },
+    }
+}
+
+/// the module part of a path by the documented rules: the declaration reached
+/// and the number of identifiers left over
+#[allow(clippy::type_complexity)]
+fn oracle_core(sc: &[DScope], start: usize, path: &[String], visible: &dyn Fn(&str, &str) -> bool) -> Result<((usize, String, String, Option<usize>), usize), String> {
     let decl_in = |s: usize, id: &str| -> Option<(usize, String, String, Option<usize>)> {
         sc[s].decls.iter().find(|(i, k, _)| i == id && (k != "local" || visible(sc[s].canon.as_deref().unwrap_or(""), id))).map(|(i, k, o)| (s, i.clone(), k.clone(), *o))
     };
@@ -1734,17 +1761,7 @@ fn oracle(sc: &[DScope], start: usize, path: &[String], kind: PKind, visible: &d
         i += 1;
     }
     let rest = path.len() - i;
-    let k = d.2.as_str();
-    let ok = || Ok((sc[d.0].canon.clone().unwrap_or_else(|| format!("?{}", d.0)), d.1.clone()));
-    match (kind, k) {
-        (PKind::Ty, "ty") => ok(),
-        (PKind::Ty, _) => Err("expectedType".into()),
-        (PKind::Fn, "mod") | (PKind::Fn, "ty") | (PKind::Const, "mod") | (PKind::Const, "ty") => Err("expectedValue".into()),
-        (PKind::Fn, "fn") => if rest == 0 { ok() } else { Err("noField".into()) },
-        (PKind::Fn, _) => if rest == 0 { Err("expectedFunction".into()) } else { Err("noField".into()) },
-        (PKind::Const, "fn") => if rest == 0 { Err("expectedValue".into()) } else { Err("noField".into()) },
-        (PKind::Const, _) => if rest == 0 { ok() } else { Err("noField".into()) },
-    }
+    Ok((d, rest))
 }
 
 fn sources_json(p: &Program, keep: &dyn Fn(usize) -> bool, tags: &BTreeMap<usize, i64>) -> J {
@@ -1981,6 +1998,47 @@ fn check_variant(rep: &mut Report, drv: &mut Driver, p: &Program, label: &str, i
                         format!("lookup-rule:{}-vs-{}", want.class(), got.class())
                     }),
                     json!({"case": ident, "variant": label, "probe": id, "sources": sources_json(p, &keep_ok, &tags)}),
+                );
+            }
+        }
+    }
+
+    // 3b. the import tables: every import of a scope whose list has no dependent pair
+    //     must point at what the rules designate for its path (on the final graph,
+    //     with the locals declared before the block)
+    if !dsc.is_empty() {
+        let by_canon: BTreeMap<String, usize> = dsc.iter().enumerate().filter_map(|(i, s)| s.canon.clone().map(|c| (c, i))).collect();
+        for (scope, ipath, seq) in &sites.imports {
+            if sites.pair_scopes.iter().any(|ps| ps == scope) {
+                continue;
+            }
+            // `import x.….x`: the path's own alias must not be consulted for its first segment
+            if ipath.len() > 1 && ipath[0] != SUPER && ipath.first() == ipath.last() {
+                continue;
+            }
+            let Some(&start) = by_canon.get(scope) else { continue };
+            let path: Vec<String> = ipath.iter().map(|x| p.names[*x].clone()).collect();
+            let visible = |sc: &str, name: &str| sites.let_seq.get(&(sc.to_string(), name.to_string())).is_some_and(|q| q < seq);
+            let want = match oracle_core(&dsc, start, &path, &visible) {
+                Ok((d, 0)) => Ok((dsc[d.0].canon.clone().unwrap_or_else(|| format!("?{}", d.0)), d.1)),
+                Ok((_, _)) => Err("expectedModule".to_string()),
+                Err(k) => Err(k),
+            };
+            rep.evaluations += 1;
+            let got: Vec<(String, String)> = dsc[start].imports.iter().map(|(_, ts, tid)| (dsc.get(*ts).and_then(|t| t.canon.clone()).unwrap_or_else(|| format!("?{ts}")), tid.clone())).collect();
+            let ok = match &want {
+                Ok(t) => got.contains(t),
+                Err(_) => false, // the tree compiled, so the compiler accepted this import
+            };
+            if !ok {
+                violate(
+                    rep,
+                    &format!(
+                        "`import {}` in {scope}: the lookup rules designate {:?}, the scope's import table is {:?} ({label})",
+                        path.join("."), want, got
+                    ),
+                    &format!("import-target:{}", match &want { Ok(_) => "wrong-or-missing".to_string(), Err(k) => format!("accepted-{k}") }),
+                    json!({"case": ident, "variant": label, "sources": sources_json(p, &keep_ok, &tags)}),
                 );
             }
         }
